@@ -3,7 +3,8 @@
 Workload: DEX files produced by the independent writer (vf.model.dexw) whose class names / method names contain '..', '.',
 empty segments, a leading '/', many '../', 255/256/300-character segments, backslashes, and benign controls.  Each file goes through
 what the CLI `decompile` command does - Session(db_url=...), Session.add(name, bytes), export_apps_to_format(name, s, out) -
-in a child process whose cwd is an empty sandbox S; out = S/a/b/out (S/a/b pre-created), database in S/db.
+in a child process whose cwd is an empty sandbox S; out = S/a/b/out (S/a/b pre-created), database in S/db
+(P/db for the deeper sandboxes of very deep names: SQLite's 512-byte path limit).
 
 Monitors (observing the REAL export_apps_to_format):
   1. vf.monitor.fsaudit audit hook, switched on only for the duration of the export call: every open-for-writing / mkdir / rename /
@@ -14,6 +15,10 @@ Monitors (observing the REAL export_apps_to_format):
   2. directory snapshot of the canary root P before/after the call: nothing new or modified outside out (S/db excluded: SQLite's
      own -wal/-shm files, created by Session, independent of the input).
 
+  3. containment hook (RootGuard, below): an operation of the kinds above whose destination resolves outside the canary root P is
+     refused before it happens (PermissionError into the export) and judged as a creation outside out if its parent directory exists.
+     Only a name piece that turned into an absolute path gets there (no nesting of the sandbox can contain that).
+
 Domain decisions
   * An exception out of the export (ENAMETOOLONG, ENOENT for a path through a missing directory, IndexError for an empty class
     name ...) is an acceptable outcome; only what was created before it counts.
@@ -21,6 +26,17 @@ Domain decisions
     legitimately create missing ancestors.
   * The sandbox is nested 7 levels below a fresh canary directory P (P/n1/../n6/S), and generated names contain at most 8 '..'
     segments in total, so that even a successful escape stays inside P (out is 10 levels below P) and is deleted with it.
+    Very deep class names (below) may carry more '..' segments: their sandbox gets one extra one-character level per surplus '..'
+    (P/n1/../n6/n/n/../n/S), so that the same bound holds whichever of the '..' a defective cleaning step lets through.
+  * Very deep class names (deep-class-name: more than 100 '/' separators; 120..400 generated, most of them above 255, plus the
+    neighbourhood of 255): an early part mixing '', '.', '..' and a few ordinary segments in random order, then a tail (..)^t/<ordinary>
+    where t is, for most cases, larger than the number k of ordinary segments before it - a cleaning step that treats "the first N
+    levels" and "the rest" differently (depth limit, maxsplit, chunked join) and lets any piece of the tail through leaves the output
+    directory.  Ordinary segments all start with "vfc37-" (should anything ever land outside P it is recognisable), names stay
+    below 1800 characters (DEX strings have a ULEB128 length, no limit of their own) and every absolute path below ~3000 < PATH_MAX
+    even if nothing at all were filtered.  A piece of such a name that begins at an empty segment is an absolute path: see monitor 3.
+    On a correct tree these exports complete
+    (the ordinary segments become directories inside out); completed deep exports with files inside out are counted and required.
   * A method-name escape needs the directory named by the first path component of "<Class> <method>" to exist; the generator adds,
     for half of those cases, a helper class whose (legal on Linux) name creates exactly that directory inside out.  Both classes are
     "class and method names in the DEX", which is what the property quantifies over.
@@ -28,7 +44,8 @@ Domain decisions
     would be looking at a dead export).
 Mechanisms: escape-<kind> where kind is the (single) hostile feature of the case:
   dotdot-class-name, absolute-class-name, empty-segment-class-name, dot-segment-class-name, long-segment-class-name,
-  backslash-class-name, unterminated-class-name, nul-in-class-name, inner-semicolon-class-name, method-name, benign-names.
+  backslash-class-name, unterminated-class-name, nul-in-class-name, inner-semicolon-class-name, method-name, benign-names,
+  deep-class-name.
 """
 import contextlib
 import io
@@ -42,6 +59,8 @@ from vf.harness import exc_str
 
 MOD = "vf.checks.c37"
 MAX_DOTDOT = 8
+DEEP_SEPS = 100  # more '/' separators than this: deep-class-name
+MAX_DEEP_DOTDOT = 340  # per deep name; the sandbox of such a case is nested (count - MAX_DOTDOT) levels deeper
 NEST = ["n1", "n2", "n3", "n4", "n5", "n6"]
 LONG300 = "L" * 300
 SEG255 = "x" * 255
@@ -76,6 +95,8 @@ def class_kind(name):
     """single-feature classifier of a class descriptor (priority order = what can move the path furthest)"""
     core = name[1:-1] if name.endswith(";") else name
     segs = core.split("/")
+    if len(segs) - 1 > DEEP_SEPS:
+        return "deep-class-name"
     if ".." in segs:
         return "dotdot-class-name"
     if "\x00" in name:
@@ -141,6 +162,62 @@ def method_case(mname, helper):
             helper = False
     classes.append({"name": "Lok/A;", "methods": [mname]})
     return {"kind": "method-name", "classes": classes, "helper": helper, "hostile": mname}
+
+
+DEEP_PREFIX = "vfc37-"  # every ordinary segment of a deep name starts like this (see the domain decisions)
+DEEP_ORDINARY = [DEEP_PREFIX + x for x in ("p", "q", "a", "x1", "\u00e9", "a b", "x.y")]
+DEEP_LEAVES = [[DEEP_PREFIX + x for x in l] for l in (["esc", "Evil"], ["Evil"], ["out", "x"], ["esc2", "q", "Evil"], ["outside", "Evil"])]
+
+
+def deep_case(early, t, leaf, tail_noise=()):
+    """early: list of segments; tail: t '..' segments (tail_noise: (index, '' or '.') inserted after that '..'), then the leaf"""
+    tail = []
+    for i in range(t):
+        tail.append("..")
+        tail.extend(seg for pos, seg in tail_noise if pos == i)
+    segs = list(early) + tail + list(leaf)
+    assert all(s_ in ("", ".", "..") or s_.startswith(DEEP_PREFIX) for s_ in segs)
+    name = "L" + "/".join(segs) + ";"
+    k = sum(1 for s_ in early if s_ not in ("", ".", ".."))
+    return {"kind": class_kind(name), "classes": [{"name": name, "methods": ["m"]}], "hostile": name,
+            "deep": {"separators": len(segs) - 1, "ordinary_before_tail": k, "dotdot_in_tail": t,
+                     "dropped_in_early_part": len(early) - k, "early_classes": sorted(set(seg_class(s_) for s_ in early))}}
+
+
+def gen_deep_cases(ctx):
+    """very deep class names; own random stream, so that the other cases do not depend on this family"""
+    rng = ctx.rng("c37-deep")
+    cases = []
+    # structured: n droppable segments of one sort (or ordinary ones), then ../../<leaf>; n around 255 and well above
+    for n in (253, 254, 255, 256, 257, rng.randint(258, 330)):
+        fill = rng.choice(["", ".", ".."]) if n != 253 else "."
+        cases.append(deep_case([fill] * n, 2, rng.choice(DEEP_LEAVES)))
+    cases.append(deep_case([DEEP_ORDINARY[0]] * rng.randint(256, 300), 0, DEEP_LEAVES[1]))
+    cases.append(deep_case([DEEP_ORDINARY[0]] * rng.randint(256, 300) + [""] * 2, 6, DEEP_LEAVES[0]))
+    nrand = 26 if ctx.quick else 400
+    seen = set(c["hostile"] for c in cases)
+    tries = 0
+    while len(cases) < 8 + nrand and tries < nrand * 20:
+        tries += 1
+        n_early = rng.randint(256, 390) if rng.random() < 0.75 else rng.randint(120, 255)
+        k = min(rng.choice([0, 0, 1, 1, 2, 3, 5, 8, 40, 100]), n_early)
+        u = min(rng.choice([0, 0, 1, 3, 10, 40, 120]), n_early - k)
+        p_empty = rng.choice([0.0, 0.2, 0.6, 1.0])
+        early = [rng.choice(DEEP_ORDINARY) for _ in range(k)] + [".."] * u
+        early += ["" if rng.random() < p_empty else "." for _ in range(n_early - k - u)]
+        rng.shuffle(early)
+        t = rng.choice([k + 1, k + 1, k + 1, k + 2, k + 5, max(0, k - 1), 0, 1, 2])
+        t = min(t, MAX_DEEP_DOTDOT - u)
+        noise = [(rng.randrange(t), rng.choice(["", "."])) for _ in range(rng.choice([0, 0, 1, 2]))] if t else []
+        c = deep_case(early, t, rng.choice(DEEP_LEAVES), noise)
+        if c["hostile"] in seen or len(c["hostile"]) > 1800 or dd_count(c["hostile"]) > MAX_DEEP_DOTDOT:
+            continue
+        seen.add(c["hostile"])
+        if rng.random() < 0.25:
+            c["classes"].insert(0, {"name": "Lsafe/Ok;", "methods": ["m"]})
+        c["form"] = "raw" if rng.random() < 0.2 else None
+        cases.append(c)
+    return cases
 
 
 def gen_cases(ctx):
@@ -212,6 +289,7 @@ def gen_cases(ctx):
             continue
         seen.add(key)
         cases.append(c)
+    cases.extend(gen_deep_cases(ctx))
     for i, c in enumerate(cases):
         c.setdefault("form", None)
         c.setdefault("helper", False)
@@ -220,6 +298,64 @@ def gen_cases(ctx):
 
 
 # ---- child side -------------------------------------------------------------------------------------------------------------
+class RootGuard:
+    """Containment (a second audit hook, this check's own): while armed with a canary root P, an open-for-writing / mkdir / rename /
+    link / symlink / truncate / shutil.* whose destination resolves (realpath at event time) outside P is refused with PermissionError
+    before it happens, and remembered.  Nothing the export does in a correct tree goes there (the nested sandbox keeps every relative
+    escape inside P); what remains is a name piece that became an ABSOLUTE path (os.path.join drops everything before a component
+    starting with '/'), which no nesting can contain.  A refused operation whose parent directory exists would have created the
+    entry: it is judged like a creation outside out.  /dev/* is let through."""
+    _inst = None
+
+    def __init__(self):
+        self.root = None
+        self.blocked = []
+        self._busy = False
+
+    @classmethod
+    def get(cls):
+        if cls._inst is None:
+            cls._inst = cls()
+            sys.addaudithook(cls._inst._hook)
+        return cls._inst
+
+    def arm(self, root):
+        self.blocked = []
+        self.root = os.path.realpath(root)
+
+    def disarm(self):
+        self.root = None
+        return self.blocked
+
+    def _hook(self, event, args):
+        if self.root is None or self._busy:
+            return
+        from vf.monitor import fsaudit
+        path = None
+        if event == "open":
+            if len(args) >= 3 and fsaudit._is_write_open(args[1], args[2]):
+                path = fsaudit._to_str(args[0])
+        elif event in fsaudit._DST_ARG:
+            i = fsaudit._DST_ARG[event]
+            if len(args) > i:
+                path = fsaudit._to_str(args[i])
+        if path is None:
+            return
+        self._busy = True
+        try:
+            try:
+                real = os.path.realpath(path)
+            except Exception:
+                real = os.path.abspath(path)
+            if fsaudit.inside(real, self.root) or real.startswith("/dev/"):
+                return
+            self.blocked.append({"event": event, "path": path, "real": real, "existed": os.path.lexists(real),
+                                 "parent_exists": os.path.isdir(os.path.dirname(real))})
+        finally:
+            self._busy = False
+        raise PermissionError("vf c37 containment: %s outside the canary root refused: %r" % (event, real))
+
+
 def build_dex(case):
     from vf.model import dexw as W
     m = W.DexModel()
@@ -240,9 +376,15 @@ def run_one(ctx, case, audit):
     P = os.path.realpath(tempfile.mkdtemp(prefix="vf_c37_"))
     old_cwd = os.getcwd()
     try:
-        S = os.path.join(P, *NEST, "S")
+        # one extra level per '..' beyond MAX_DOTDOT (deep class names): out is always at least (number of '..' + 2) levels below P
+        dd_total = dd_count(*[c["name"] for c in case["classes"]], *[m for c in case["classes"] for m in c["methods"]])
+        extra_nest = max(0, dd_total - MAX_DOTDOT)
+        S = os.path.join(P, *NEST, *(["n"] * extra_nest), "S")
         os.makedirs(os.path.join(S, "a", "b"))
-        os.makedirs(os.path.join(S, "db"))
+        # SQLite refuses database paths longer than 512 bytes: with a deeper sandbox the database lies directly below P (no generated name has a
+        # segment "db", and P is at least two levels above anything the '..' of the case can reach)
+        dbdir = os.path.join(S, "db") if not extra_nest else os.path.join(P, "db")
+        os.makedirs(dbdir)
         os.makedirs(os.path.join(S, "in"))
         out = os.path.join(S, "a", "b", "out")
         data, probs = build_dex(case)
@@ -257,7 +399,7 @@ def run_one(ctx, case, audit):
         from androguard.cli.main import export_apps_to_format
         from androguard.session import Session
         try:
-            s = Session(db_url="sqlite:///%s" % os.path.join(S, "db", "s.db"))
+            s = Session(db_url="sqlite:///%s" % os.path.join(dbdir, "s.db"))
             s.add(fin, data)
             seen_names = [str(c.get_name()) for _, vm, _ in s.get_objects_dex() for c in vm.get_classes()]
             seen_methods = [str(m.get_name()) for _, vm, _ in s.get_objects_dex() for m in vm.get_encoded_methods()]
@@ -272,6 +414,19 @@ def run_one(ctx, case, audit):
             ctx.inconclusive("androguard did not see the generated names: want %r got %r" % (want_names, seen_names))
             return
         ctx.count("hostile_names_reached_export" if case["kind"] != "benign-names" else "benign_cases")
+        deep = case.get("deep")
+        if case["kind"] == "deep-class-name":
+            ctx.count("deep_class_name_exports")
+            ctx.maxi("max_separators_in_class_name", max(n.count("/") for n in want_names))
+            ctx.maxi("max_extra_sandbox_nesting", extra_nest)
+            if deep and deep["separators"] > 255:
+                ctx.count("deep_names_over_255_separators")
+            if deep and deep["dotdot_in_tail"] > deep["ordinary_before_tail"]:
+                ctx.count("deep_names_more_dotdot_in_tail_than_ordinary_segments_before")
+                if deep["separators"] > 255 and deep["dropped_in_early_part"]:
+                    ctx.count("deep_names_over_255_separators_dropped_early_segments_and_dotdot_tail")
+        guard = RootGuard.get()
+        guard.arm(P)  # from here on nothing is created outside the canary root (also not by the unjudged earlier export)
         if case["idx"] % 3 == 0:
             # history: the same process has already exported this session to ANOTHER directory (not judged); what the judged export creates
             # must lie inside its own output directory, not in the earlier one
@@ -282,13 +437,14 @@ def run_one(ctx, case, audit):
             except Exception:
                 pass
         out_real = os.path.realpath(out)
-        db_rel = os.path.relpath(os.path.join(S, "db"), P)
+        db_rel = os.path.relpath(dbdir, P)
         out_rel = os.path.relpath(out_real, P)
         before = fsaudit.snapshot(P)
         raised = None
         buf = io.StringIO()
         ctx.ev()
         ctx.count("export_calls")
+        guard.arm(P)
         audit.start()
         try:
             with contextlib.redirect_stdout(buf):
@@ -297,7 +453,13 @@ def run_one(ctx, case, audit):
             raised = exc_str(e)
         finally:
             events = audit.stop()
+            blocked = guard.disarm()
         after = fsaudit.snapshot(P)
+        # containment: operations refused because they pointed outside the canary root; with an existing parent directory they would
+        # have created the entry (we run as root: no permission would have stopped them)
+        esc_blocked = [b for b in blocked if b["parent_exists"]]
+        if blocked:
+            ctx.count("operations_outside_canary_root_refused", len(blocked))
         ctx.count("audit_events_seen_in_window", audit.seen_total)
         ctx.count("audit_create_events", len(events))
         if raised:
@@ -317,6 +479,10 @@ def run_one(ctx, case, audit):
         inside_new = [p for p in new if p.startswith(out_rel + os.sep)]
         ctx.count("files_created_inside_out", len(inside_new))
         ctx.maxi("max_created_per_export", len(new))
+        if case["kind"] == "deep-class-name" and not raised and any(p.endswith(".java") for p in inside_new) \
+                and any(p.endswith(".ag") for p in inside_new):
+            # a deep export that ran to its end and produced its files (a comparison that says something)
+            ctx.count("deep_exports_completed_with_files_inside_out")
         # the two monitors must agree on what was created inside P (cross-check of the monitors themselves)
         audit_created = set(os.path.relpath(e["real"], P) for e in events if e["effective"] and fsaudit.inside(e["real"], P))
         missed = [p for p in new if p not in audit_created and not (p == db_rel or p.startswith(db_rel + os.sep))]
@@ -332,22 +498,30 @@ def run_one(ctx, case, audit):
                 ctx.count("benign_files_created", len(java) + len(ag))
             else:
                 ctx.inconclusive("benign control created no .java/.ag inside out: %r" % case["classes"])
-        if esc_audit or esc_snap:
+        if esc_audit or esc_snap or esc_blocked:
             ctx.violation("escape-" + case["kind"],
                           "export_apps_to_format created files/directories outside the requested output directory (%s)" % case["kind"],
-                          {"classes": case["classes"], "form": case["form"], "helper_class_added": case["helper"],
+                          {"classes": case["classes"], "form": case["form"], "helper_class_added": case["helper"], "deep_name": deep,
                            "out": "P/" + out_rel,
                            "audit_escapes": [{"event": e["event"], "path_as_given": e["path"].replace(P, "P"), "realpath": e["real"].replace(P, "P")} for e in esc_audit[:6]],
                            "snapshot_new_outside_out": esc_snap[:8], "export_exception": raised,
+                           "refused_outside_canary_root": [{"event": b["event"], "path_as_given": b["path"].replace(P, "P"), "realpath": b["real"]}
+                                                           for b in esc_blocked[:4]],
                            "dex_hex": data.hex() if len(data) < 1900 else None})
             ctx.count("escapes")
         names = [c["name"] for c in case["classes"]]
-        ctx.sig(case["kind"], tuple(shape(n) for n in names), tuple(shape("L" + m + ";") for c in case["classes"] for m in c["methods"]),
-                case["form"], bool(raised))
+        if deep:
+            # deep names: coarse signature (which side of 255 separators, sorts of early segments, few/many ordinary ones, tail longer than them?)
+            ctx.sig(case["kind"], deep["separators"] > 255, tuple(deep["early_classes"]), min(deep["ordinary_before_tail"], 4),
+                    deep["dotdot_in_tail"] > deep["ordinary_before_tail"], min(deep["dotdot_in_tail"], 3), len(names), case["form"], bool(raised))
+        else:
+            ctx.sig(case["kind"], tuple(shape(n) for n in names), tuple(shape("L" + m + ";") for c in case["classes"] for m in c["methods"]),
+                    case["form"], bool(raised))
         if case["idx"] % 17 == 0:
             ctx.sample({"classes": case["classes"], "kind": case["kind"], "form": case["form"], "raised": raised,
                         "created": [p for p in new if not p.startswith(db_rel)][:6]})
     finally:
+        RootGuard.get().disarm()
         os.chdir(old_cwd)
         shutil.rmtree(P, ignore_errors=True)
 
@@ -364,12 +538,15 @@ def shard(ctx, arg):
 # ---- parent -----------------------------------------------------------------------------------------------------------------
 def run(ctx):
     ctx.rule = ("one export_apps_to_format call on a generated DEX in a fresh nested sandbox; distinct non-trivial = distinct (feature kind, "
-                "per-segment shape of every class name [.. / . / empty / long / backslash / space / plain], shape of every method name, form, raised?)")
+                "per-segment shape of every class name [.. / . / empty / long / backslash / space / plain], shape of every method name, form, raised?); "
+                "deep class names: (over 255 separators?, sorts of early segments, ordinary segments before the tail [0..4+], tail '..' outnumber them?, "
+                "tail '..' [0..3+], classes, form, raised?)")
     ctx.assumptions = [
         "Linux path semantics (backslash is an ordinary character)",
         "created = appears in the audit log as open-for-write/mkdir/rename/link/symlink/truncate/shutil destination, or is new/modified in the before/after listing of the canary root",
         "S/db (SQLite files of the Session) is excluded; exceptions raised by the export are acceptable outcomes",
-        "at most %d '..' segments per case so that a successful escape stays inside the canary root" % MAX_DOTDOT,
+        "at most %d '..' segments per case (deep class names: at most %d, with the sandbox nested one level deeper per surplus '..') so that a "
+        "successful escape stays inside the canary root" % (MAX_DOTDOT, MAX_DEEP_DOTDOT),
     ]
     cases = gen_cases(ctx)
     nshards = 16 if ctx.quick else 32
@@ -389,6 +566,10 @@ def run(ctx):
     ctx.require_counter("hostile_names_reached_export", 40)
     ctx.require_counter("benign_files_created", 8)
     ctx.require_counter("audit_create_events", 50)
+    ctx.require_counter("deep_class_name_exports", 20)
+    ctx.require_counter("deep_names_over_255_separators", 12)
+    ctx.require_counter("deep_names_over_255_separators_dropped_early_segments_and_dotdot_tail", 8)
+    ctx.require_counter("deep_exports_completed_with_files_inside_out", 12)
     ctx.min_distinct = 30
 
 
@@ -398,6 +579,7 @@ def replay(ctx, path):
     cases = []
     for i, w in enumerate(j["witnesses"]):
         cases.append({"kind": j["mechanism"][len("escape-"):], "classes": w["classes"], "form": w.get("form"), "helper": w.get("helper_class_added", False),
+                      "deep": w.get("deep_name"),
                       "hostile": None, "idx": i})
     ctx.rule = "replay of stored witnesses"
     ctx.min_distinct = 1
